@@ -2824,9 +2824,16 @@ class Roll(Sequence[RollOutcome]):
         self._roll_outcomes = tuple(roll_outcomes)
         self._source_rolls = tuple(source_rolls)
 
-        for roll_outcome in self._roll_outcomes:
+        # Intermediate roll outcomes created on the way to this roll's outcomes (e.g.,
+        # the implicit sums of multi-outcome operands) belong to this roll as well
+        unassociated = list(self._roll_outcomes)
+
+        while unassociated:
+            roll_outcome = unassociated.pop()
+
             if roll_outcome._roll is None:
                 roll_outcome._roll = self
+                unassociated.extend(roll_outcome.sources)
 
     # ---- Overrides -------------------------------------------------------------------
 
